@@ -68,7 +68,7 @@ def run(ctx):
             uniq.append(c)
     cases = uniq
     ctx.rule = ("texts: %d hand-picked edge cases + all strings of length <= %d over a 14-symbol alphabet (quote, backslash, newline, "
-                "space, slash, star, braces, letter, digit, dot, caret, a 2-byte rune, x) + random strings of 1..16 symbols over a "
+                "space, slash, star, braces, letter, digit, dot, caret, a 2-byte rune, x) + all bracket strings of length <= %d over ( ) [ ] (thorough: also { }) + random strings of 1..16 symbols over a "
                 "72-symbol alphabet (escapes, brackets, comment markers, BOM, invalid UTF-8 bytes, non-ASCII digits / marks / spaces, "
                 "keywords) + mutated chunks of the .proto files under internal/testdata and experimental/parser/testdata; "
                 "distinct = distinct text; non-trivial = non-empty" % (len(X.CORPUS), maxlen, blen))
